@@ -5,11 +5,14 @@ class had *before* it was replaced (`__xpmid__`).  With VPK_C20_DEPRECATED=0 the
 ordinary classes with their own identifier (this is how job directories "recorded under a former
 identifier" are produced: real submits of the old classes); with VPK_C20_DEPRECATED=1 (default)
 they are marked with the real @deprecate, as a user would after renaming / moving a class.
+
+`aux` / `auxes` are `Meta[...]` parameters: their value is ignored by the identifier unless it was flagged
+`setmeta(value, False)`; any member may also be flagged `setmeta(value, True)` (ignored wherever it occurs).
 """
 import os
 from typing import Dict, List, Optional
 
-from experimaestro import Config, Param, Task, deprecate
+from experimaestro import Config, Meta, Param, Task, deprecate
 
 DEPRECATED = os.environ.get("VPK_C20_DEPRECATED", "1") == "1"
 
@@ -34,12 +37,25 @@ class OlderLeaf(OldLeaf):
     __xpmid__ = "vpk_c20.ancient.leaf"
 
 
+class NewAux(Config):
+    """only given through `Meta[...]` parameters: it counts in the identifier of its holder exactly when it
+    was flagged `setmeta(aux, False)` (an explicit False forces a Meta member into the identifier)"""
+    x: Param[int]
+    leaf: Param[Optional[NewLeaf]] = None
+
+
+@_dep
+class OldAux(NewAux):
+    __xpmid__ = "vpk_c20.legacy.aux"
+
+
 class NewMid(Config):
     w: Param[int]
     leaf: Param[NewLeaf]
     opt: Param[Optional[NewLeaf]] = None
     items: Param[List[NewLeaf]] = []
     table: Param[Dict[str, NewLeaf]] = {}
+    aux: Meta[Optional[NewAux]] = None
 
 
 @_dep
@@ -63,6 +79,7 @@ class _Exec:
 class NewTask(_Exec, Task):
     x: Param[int]
     leaf: Param[Optional[NewLeaf]] = None
+    aux: Meta[Optional[NewAux]] = None
 
 
 @_dep
@@ -84,11 +101,14 @@ class Holder(_Exec, Task):
     leaves: Param[List[NewLeaf]] = []
     named: Param[Dict[str, NewMid]] = {}
     plain: Param[Optional[Plain]] = None
+    aux: Meta[Optional[NewAux]] = None
+    auxes: Meta[List[NewAux]] = []
 
 
 class NewBig(_Exec, Task):
     n: Param[int]
     mid: Param[NewMid]
+    aux: Meta[Optional[NewAux]] = None
 
 
 @_dep
@@ -98,6 +118,6 @@ class OldBig(NewBig):
 
 
 OLD2NEW = {"OldLeaf": "NewLeaf", "OlderLeaf": "NewLeaf", "OldMid": "NewMid", "RenamedTask": "NewTask",
-           "MovedTask": "NewTask", "OldBig": "NewBig"}
-CLASSES = {c.__name__: c for c in (NewLeaf, OldLeaf, OlderLeaf, NewMid, OldMid, Plain, NewTask, RenamedTask,
+           "MovedTask": "NewTask", "OldBig": "NewBig", "OldAux": "NewAux"}
+CLASSES = {c.__name__: c for c in (NewLeaf, OldLeaf, OlderLeaf, NewAux, OldAux, NewMid, OldMid, Plain, NewTask, RenamedTask,
                                    MovedTask, Holder, NewBig, OldBig)}
